@@ -119,10 +119,35 @@ def setattr (dict : List String) (key : String) : Except CErr Unit :=
   else if key == "support" then .error .AttributeError
   else .ok ()
 
-/-- `del obj.key`: `AbstractConcept` defines no `__delattr__`, so `object.__delattr__` removes an instance
-    attribute from `__dict__` (`AttributeError` when there is none, e.g. for the `support` property) -/
+/-- `AbstractConcept.__delattr__(key)`: the six defining fields are refused outright; everything else goes to
+    `object.__delattr__`, which removes an instance attribute from `__dict__` (`AttributeError` when there is
+    none, e.g. for the `support` property) -/
 def delattr (dict : List String) (key : String) : Except CErr (List String) :=
-  if dict.contains key then .ok (dict.erase key) else .error .AttributeError
+  if frozenNames.contains key then .error .FrozenInstanceError
+  else if dict.contains key then .ok (dict.erase key) else .error .AttributeError
+
+/-- one attribute statement on a concept: `c.key = value` or `del c.key` -/
+inductive AttrOp where
+  | set (key : String)
+  | del (key : String)
+  deriving Repr, Inhabited
+
+/-- effect of one statement on the set of `__dict__` keys, and what it raised (a raising statement
+    leaves the instance untouched) -/
+def step (dict : List String) : AttrOp → List String × Except CErr Unit
+  | .set k =>
+    match setattr dict k with
+    | .ok () => (if dict.contains k then dict else k :: dict, .ok ())
+    | .error e => (dict, .error e)
+  | .del k =>
+    match delattr dict k with
+    | .ok d => (d, .ok ())
+    | .error e => (dict, .error e)
+
+/-- `__dict__` keys after a whole sequence of attribute statements (exceptions caught by the caller) -/
+def runOps (dict : List String) : List AttrOp → List String
+  | [] => dict
+  | op :: ops => runOps (step dict op).1 ops
 
 end Concept
 
